@@ -182,5 +182,72 @@ def checkReduceIdentity (K : Ring) (P A Q B R : MPoly) : Bool :=
 /-- `P = lc_x(B)^k` -/
 def isLcPower (K : Ring) (x : Nat) (B P : MPoly) (k : Nat) : Bool := pow K (lcIn K x B) k = P
 
+/-! ### the polynomial hash (C18): mirror of `integer_hash`, `hash_pair`, `coefficient_hash` on 64-bit words -/
+
+def w64 (n : Nat) : Nat := n % 2 ^ 64
+/-- `hash_combine(seed, h)` -/
+def hashCombine (seed h : Nat) : Nat := w64 (h + 0x9e3779b9 + w64 (seed <<< 6) + (seed >>> 2))
+/-- `hash_pair(a, b)` -/
+def hashPair (a b : Nat) : Nat := w64 (a + 0x9e3779b9 + w64 (b <<< 6) + (b >>> 2))
+
+/-- 64-bit limbs of a natural number, least significant first -/
+def limbs : Nat → Nat → List Nat
+  | 0, _ => []
+  | fuel+1, n => if n = 0 then [] else (n % 2 ^ 64) :: limbs fuel (n / 2 ^ 64)
+
+/-- `integer_hash`: fold of `hash_combine` over the limbs of |a| -/
+def integerHash (a : Int) : Nat := (limbs (a.natAbs + 1) a.natAbs).foldl hashCombine 0
+
+def termHash (t : Term) : Nat := t.1.foldl (fun h p => h ^^^ hashPair p.1 p.2) (integerHash t.2)
+
+/-- `coefficient_hash`: XOR over all monomials; `lp_polynomial_hash` maps 0 to 1 -/
+def hashRaw (p : MPoly) : Nat := p.foldl (fun h t => h ^^^ termHash t) 0
+def hash (p : MPoly) : Nat := if hashRaw p = 0 then 1 else hashRaw p
+
 end MPoly
+
+/-! ### variable orders and layouts (C18) -/
+
+/-- `lp_variable_order_cmp` without top/bottom: listed variables by position, unlisted ones above, by id -/
+def ordCmp (l : List Nat) (x y : Nat) : Int :=
+  if x = y then 0 else
+  match l.idxOf? x, l.idxOf? y with
+  | some i, some j => (i : Int) - (j : Int)
+  | none, some _ => 1
+  | some _, none => -1
+  | none, none => (x : Int) - (y : Int)
+
+/-- insertion sort of variables, descending in the order `l` -/
+def sortDesc (l : List Nat) (vs : List Nat) : List Nat :=
+  vs.foldr (fun v acc =>
+    let rec ins : List Nat → List Nat
+      | [] => [v]
+      | w :: r => if ordCmp l v w > 0 then v :: w :: r else w :: ins r
+    ins acc) []
+
+/-- greatest variable of a polynomial under order `l` -/
+def topVarOf (l : List Nat) (p : MPoly) : Option Nat :=
+  (MPoly.vars p).foldl (fun acc v => match acc with
+    | none => some v
+    | some w => if ordCmp l v w > 0 then some v else some w) none
+
+/-- the recursive layout built under order `L` (main variable = greatest variable under `L`, coefficients nested)
+    has, at every level, a main variable that is greater under `C` than the main variable of every non-constant
+    coefficient -/
+def layoutInOrderRec (L C : List Nat) : Nat → MPoly → Bool
+  | 0, _ => true
+  | fuel+1, p =>
+    match topVarOf L p with
+    | none => true
+    | some x =>
+      let d := MPoly.degreeIn x p
+      (List.range (d + 1)).all (fun k =>
+        let ck : MPoly := p.filterMap (fun t => if Mono.degreeIn x t.1 = k then some (Mono.without x t.1, t.2) else none)
+        match topVarOf L ck with
+        | none => true
+        | some y => ordCmp C x y > 0 && layoutInOrderRec L C fuel ck)
+
+def layoutInOrder (L C : List Nat) (p : MPoly) : Bool := layoutInOrderRec L C 16 p
+
+
 end LP
